@@ -81,6 +81,13 @@ impl Function {
     }
 
     pub(crate) fn exec(&self, interpreter: &mut Interpreter) -> Result<Variable, ExecError> {
+        #[cfg(feature = "verif")]
+        if crate::verif::enter_call() {
+            let _frame = crate::verif::call_enter(self, interpreter);
+            let result = self.exec(interpreter);
+            crate::verif::call_exit(self, &result);
+            return result;
+        }
         let body = match &self.body {
             Body::Lang(body) => body,
             Body::Native(body) => return (body)(interpreter),
